@@ -2,6 +2,7 @@ package channels
 
 import (
 	versioning "github.com/filecoin-project/go-ds-versioning/pkg"
+	"github.com/ipld/go-ipld-prime/datamodel"
 	peer "github.com/libp2p/go-libp2p/core/peer"
 
 	datatransfer "github.com/filecoin-project/go-data-transfer/v2"
@@ -169,3 +170,10 @@ func VerifView(rec *internal.ChannelState) datatransfer.ChannelState {
 
 // VerifInitiatorInv is the inductive invariant of C03 (see c03.go verifInv), exported for impl-level steps.
 func VerifInitiatorInv(s datatransfer.Status, F, R, L bool) bool { return verifInv(s, F, R, L) }
+
+// VerifVoucher lets harnesses outside channels/ build voucher log entries.
+type VerifVoucher = internal.EncodedVoucher
+
+func VerifMakeVoucher(t string, n datamodel.Node) internal.EncodedVoucher {
+	return internal.EncodedVoucher{Type: datatransfer.TypeIdentifier(t), Voucher: internal.CborGenCompatibleNode{Node: n}}
+}
